@@ -1,5 +1,5 @@
 """Small problem instances for every solver entry point (shared by the solver-level correspondence checks)."""
-import random
+import random, math
 
 def basic_calls(cvxopt):
     """entry point name -> function(**kw) that solves a small well-posed instance through that entry point"""
@@ -60,3 +60,180 @@ def basic_calls(cvxopt):
         return {'status': p.status, 'x': x.value, 'primal objective': p.objective.value()[0]}
     ARGS['op.solve'] = (opsolve, [c, G, h], {})
     return ARGS
+
+
+# =====================================================================================================
+# Planted cone programs (used by C01, C02, C03, C05, C06, C07).  All data are plain Python lists of
+# floats with small dyadic/integer entries; conversion to cvxopt matrices happens in `to_cvx`.
+# Vectors over the cone K = l x q... x s... are stored as in cvxopt ('s' blocks: column-major full storage).
+# =====================================================================================================
+
+def cdim(dims): return dims['l'] + sum(dims['q']) + sum(k * k for k in dims['s'])
+
+def rand_dims(rng, small=False):
+    kind = rng.random()
+    l = rng.randint(0, 4)
+    q = [rng.randint(1, 4) for _ in range(rng.randint(0, 2))] if kind > 0.3 else []
+    s = [rng.randint(0, 3) for _ in range(rng.randint(0, 2))] if kind > 0.55 else []
+    if l + sum(q) + sum(k * k for k in s) == 0: l = 2
+    return {'l': l, 'q': q, 's': s}
+
+def rint(rng, a=3): return float(rng.randint(-a, a))
+
+def interior_point(rng, dims):
+    """a vector strictly inside K (margin >= 1), 's' blocks symmetric"""
+    v = [1.0 + rng.randint(0, 3) for _ in range(dims['l'])]
+    for m in dims['q']:
+        t = [rint(rng, 2) for _ in range(m - 1)]
+        v += [math.floor(math.sqrt(sum(a * a for a in t))) + 1.0 + rng.randint(0, 2)] + t
+    for k in dims['s']:
+        B = [[rint(rng, 2) for _ in range(k)] for _ in range(k)]
+        S = [[sum(B[i][t] * B[j][t] for t in range(k)) + (1.0 + rng.randint(0, 1) if i == j else 0.0) for j in range(k)] for i in range(k)]
+        v += [S[i][j] for j in range(k) for i in range(k)]      # column major
+    return v
+
+def sym_vector(rng, dims, a=3):
+    """arbitrary vector of the space of K with symmetric 's' blocks"""
+    v = [rint(rng, a) for _ in range(dims['l'] + sum(dims['q']))]
+    for k in dims['s']:
+        S = [[0.0] * k for _ in range(k)]
+        for i in range(k):
+            for j in range(i + 1):
+                S[i][j] = S[j][i] = rint(rng, a)
+        v += [S[i][j] for j in range(k) for i in range(k)]
+    return v
+
+def dotl(a, b): return sum(x * y for x, y in zip(a, b))
+def matvec(M, x):   # M list of columns
+    m = len(M[0]) if M else 0
+    return [sum(M[j][i] * x[j] for j in range(len(M))) for i in range(m)]
+def mattvec(M, z): return [dotl(col, z) for col in M]
+
+class Planted:
+    """c, G (list of n columns of length N), h, A (list of n columns of length p), b, dims, kind and witnesses"""
+    def __init__(self, **kw): self.__dict__.update(kw)
+
+def planted_conelp(rng, kind='optimal', n=None, dims=None, p=None, P_rank=None):
+    """kind: 'optimal' (strictly feasible primal and dual witnesses), 'pinf' (strict Farkas certificate),
+    'dinf' (strictly improving ray).  With P_rank not None a PSD matrix P = B'B (rank P_rank) is added (cone QP)."""
+    for outer in range(100):
+        pr = _planted_try(rng, kind, n, dims, p, P_rank)
+        if pr is not None: return pr
+    raise RuntimeError('no full-rank planted instance found')
+
+def _planted_try(rng, kind, n, dims, p, P_rank):
+    dims = dims or rand_dims(rng)
+    N = cdim(dims)
+    n = n or rng.randint(1, min(4, max(1, N)))
+    if n > N: n = N
+    if kind == 'pinf' and n >= N:
+        if N < 2: return None
+        n = N - 1
+    p = rng.randint(0, min(2, n - 1)) if p is None else p
+    G = [sym_vector(rng, dims) for _ in range(n)]
+    A = [[rint(rng) for _ in range(p)] for _ in range(n)]
+    if rank_cols(G, A) != n or rank_rows(A, p) != p: return None
+    w = {}
+    if kind == 'optimal':
+        x0 = [rint(rng, 2) for _ in range(n)]; s0 = interior_point(rng, dims)
+        h = [a + b for a, b in zip(matvec(G, x0), s0)]
+        b = matvec(A, x0)
+        z0 = interior_point(rng, dims); y0 = [rint(rng, 2) for _ in range(p)]
+        c = [-(a + bb) for a, bb in zip(mattvec(G, z0), mattvec(A, y0))]
+        P = None
+        if P_rank is not None:
+            B = [[rint(rng, 2) for _ in range(P_rank)] for _ in range(n)]     # n columns? B is P_rank x n given by columns
+            P = [[sum(B[i][t] * B[j][t] for t in range(P_rank)) for i in range(n)] for j in range(n)]  # columns of P
+            # dual feasibility of the QP at x0: P x0 + c + G'z0 + A'y0 = 0
+            Px0 = matvec(P, x0)
+            c = [ci - pi for ci, pi in zip(c, Px0)]
+        w = {'x': x0, 's': s0, 'z': z0, 'y': y0}
+        return Planted(kind=kind, c=c, G=G, h=h, A=A, b=b, dims=dims, n=n, p=p, N=N, P=P, wit=w)
+    if kind == 'pinf':
+        # Farkas: z0 in int K, G'z0 + A'y0 = 0, h'z0 + b'y0 = -1.   Take y0 = 0 and project G, h.
+        z0 = interior_point(rng, dims)
+        zz = dotl(z0, z0)
+        G = [[g - zi * dotl(col, z0) / zz for g, zi in zip(col, z0)] for col in G]
+        hh = sym_vector(rng, dims)
+        t = (dotl(hh, z0) + 1.0) / zz
+        h = [a - zi * t for a, zi in zip(hh, z0)]
+        if rank_cols(G, A) != n: return None
+        b = [rint(rng) for _ in range(p)]
+        z1 = interior_point(rng, dims); y1 = [rint(rng, 2) for _ in range(p)]      # a dual feasible point
+        c = [-(a + bb) for a, bb in zip(mattvec(G, z1), mattvec(A, y1))]
+        w = {'z': z0, 'y': [0.0] * p, 'dual_feasible': {'z': z1, 'y': y1}}
+        return Planted(kind=kind, c=c, G=G, h=h, A=A, b=b, dims=dims, n=n, p=p, N=N, P=None, wit=w)
+    if kind == 'dinf':
+        # ray: x0 != 0 with G x0 + s0 = 0, s0 in int K, A x0 = 0, c'x0 = -1 ; plus a feasible point
+        x0 = [rint(rng, 2) for _ in range(n)]
+        if not any(x0): x0[0] = 1.0
+        xx = dotl(x0, x0)
+        s0 = interior_point(rng, dims)
+        r = [a + b for a, b in zip(matvec(G, x0), s0)]          # want G x0 = -s0
+        G = [[g - ri * xj / xx for g, ri in zip(col, r)] for col, xj in zip(G, x0)]
+        ra = matvec(A, x0)
+        A = [[a - ri * xj / xx for a, ri in zip(col, ra)] for col, xj in zip(A, x0)]
+        if rank_cols(G, A) != n or rank_rows(A, p) != p: return None
+        cc = [rint(rng) for _ in range(n)]
+        t = (dotl(cc, x0) + 1.0) / xx
+        c = [ci - xj * t for ci, xj in zip(cc, x0)]
+        xf = [rint(rng, 2) for _ in range(n)]; sf = interior_point(rng, dims)
+        h = [a + b for a, b in zip(matvec(G, xf), sf)]
+        b = matvec(A, xf)
+        w = {'x': x0, 's': s0}
+        return Planted(kind=kind, c=c, G=G, h=h, A=A, b=b, dims=dims, n=n, p=p, N=N, P=None, wit=w)
+    raise ValueError(kind)
+
+def rank_of(rows):
+    """rank of a list of rows (exact enough: small integers)"""
+    from fractions import Fraction
+    M = [[Fraction(x) for x in r] for r in rows]
+    rk = 0
+    ncol = len(M[0]) if M else 0
+    for cidx in range(ncol):
+        piv = None
+        for r in range(rk, len(M)):
+            if M[r][cidx] != 0: piv = r; break
+        if piv is None: continue
+        M[rk], M[piv] = M[piv], M[rk]
+        for r in range(len(M)):
+            if r != rk and M[r][cidx] != 0:
+                f = M[r][cidx] / M[rk][cidx]
+                M[r] = [a - f * b for a, b in zip(M[r], M[rk])]
+        rk += 1
+    return rk
+def rank_cols(G, A):
+    n = len(G)
+    rows = [[G[j][i] for j in range(n)] for i in range(len(G[0]))] if G and G[0] else []
+    rows += [[A[j][i] for j in range(n)] for i in range(len(A[0]))] if A and A[0] else []
+    return rank_of(rows) if rows else 0
+def rank_rows(A, p):
+    if p == 0: return 0
+    n = len(A)
+    return rank_of([[A[j][i] for j in range(n)] for i in range(p)])
+
+def to_cvx(cvxopt, pr, sparse=False, junk=None):
+    """cvxopt matrices (c, G, h, A, b, P); junk: rng to write arbitrary values into the strict upper triangles of
+    the 's' blocks of G and h (never referenced by the solvers)"""
+    from cvxopt import matrix, sparse as sp
+    G = [list(col) for col in pr.G]; h = list(pr.h)
+    if junk is not None:
+        off = pr.dims['l'] + sum(pr.dims['q'])
+        for k in pr.dims['s']:
+            for j in range(k):
+                for i in range(j):
+                    for col in G: col[off + j * k + i] = float(junk.randint(-9, 9))
+                    h[off + j * k + i] = float(junk.randint(-9, 9))
+            off += k * k
+    mG = matrix([x for col in G for x in col], (pr.N, pr.n), 'd')
+    mA = matrix([x for col in pr.A for x in col], (pr.p, pr.n), 'd')
+    mP = None
+    if pr.P is not None:
+        mP = matrix([x for col in pr.P for x in col], (pr.n, pr.n), 'd')
+        if junk is not None:
+            for j in range(pr.n):
+                for i in range(j): mP[i, j] = float(junk.randint(-9, 9))
+    if sparse:
+        mG, mA = sp(mG), sp(mA)
+        if mP is not None: mP = sp(mP)
+    return matrix(pr.c, (pr.n, 1), 'd'), mG, matrix(h, (pr.N, 1), 'd'), mA, matrix(pr.b, (pr.p, 1), 'd'), mP
